@@ -1034,6 +1034,11 @@ func (y *ifFeatureEval) eval(greedy bool) {
 				y.syntaxErr()
 				return
 			}
+			// prefix:name names a feature of the module the prefix stands for (the module's
+			// own one included); the enabled features of the load are kept by name
+			if colon := strings.IndexRune(tok, ':'); colon > 0 && colon < len(tok)-1 {
+				tok = tok[colon+1:]
+			}
 			_, found := y.features[tok]
 			y.push(found)
 		}
@@ -1077,9 +1082,14 @@ func (y *ifFeatureEval) end() bool {
 	return y.pos >= len(y.expr)
 }
 
+// blanks, tabs and line breaks separate the words of an expression (RFC7950 Sec 7.20.2)
+func isFeatureExprSpace(c byte) bool {
+	return c == ' ' || c == '\t' || c == '\n' || c == '\r'
+}
+
 func (y *ifFeatureEval) eatws() {
 	for !y.end() {
-		if y.expr[y.pos] != ' ' {
+		if !isFeatureExprSpace(y.expr[y.pos]) {
 			break
 		}
 		y.pos++
@@ -1091,7 +1101,7 @@ func (y *ifFeatureEval) next() string {
 	start := y.pos
 	for !y.end() {
 		switch y.expr[y.pos] {
-		case ' ':
+		case ' ', '\t', '\n', '\r':
 			goto brk
 		case '(', ')':
 			if y.pos == start {
